@@ -333,8 +333,49 @@ func c04StructRoot(r *Run) {
 	}
 }
 
+// a nil member of a collection: the loop variable is bound (to nil) in that instance too, so it shadows an
+// outer variable, an outer loop's variable and a root struct field of the same name (direct oracle)
+type c04Names struct {
+	Name  string
+	Names []any
+}
+
+func c04NilItems(r *Run) {
+	cases := []struct {
+		data any
+		tpl  string
+		want string
+	}{
+		{map[string]any{"x": "outer", "xs": []any{"a", nil, "b"}}, `<li v-for="x in xs">[{{ x }}]</li><p>{{ x }}</p>`, `<li>[a]</li><li>[]</li><li>[b]</li><p>outer</p>`},
+		{map[string]any{"rows": []any{[]any{"r0", nil}, []any{nil, "r1"}}}, `<div v-for="(i, v) in rows"><i v-for="(j, v) in v">[{{ v }}]</i></div>`, `<div><i>[r0]</i><i>[]</i></div><div><i>[]</i><i>[r1]</i></div>`},
+		{c04Names{Name: "Root", Names: []any{"n0", nil}}, `<b v-for="Name in Names">[{{ Name }}]</b><p>{{ Name }}</p>`, `<b>[n0]</b><b>[]</b><p>Root</p>`},
+		{map[string]any{"x": "outer", "xs": []any{nil, nil}}, `<li v-for="(x, y) in xs">{{ x }}[{{ y }}]</li>`, `<li>0[]</li><li>1[]</li>`},
+		{map[string]any{"x": "outer", "ps": []*c04Names{nil, {Name: "p1"}}}, `<li v-for="x in ps">[{{ x.Name }}]</li><p>{{ x }}</p>`, `<li>[]</li><li>[p1]</li><p>outer</p>`},
+	}
+	for i, c := range cases {
+		var buf bytes.Buffer
+		var err error
+		func() {
+			defer func() {
+				if x := recover(); x != nil {
+					err = fmt.Errorf("PANIC %v", x)
+				}
+			}()
+			err = vuego.New().Fill(c.data).RenderString(context.Background(), &buf, c.tpl)
+		}()
+		got := strings.Join(strings.Fields(buf.String()), "")
+		r.Eval(fmt.Sprintf("nil-item:%d", i), true, nil)
+		r.Count("stream:nil-items(oracle only)")
+		if err != nil || got != c.want {
+			r.Fail("a loop variable bound to a nil member does not shadow the outer name in its instance", map[string]string{"oracle": "nil-item-shadowing", "case": fmt.Sprint(i)},
+				map[string]any{"template": c.tpl, "data": fmt.Sprintf("%+v", c.data), "output": buf.String(), "expected": c.want, "err": fmt.Sprint(err)})
+		}
+	}
+}
+
 func runC04(r *Run) {
 	c04StructRoot(r)
+	c04NilItems(r)
 	r.Imports = []string{"Base.Val", "Model.Stack", "Model.Loops"}
 	r.Rule("loop nests up to depth 3 over slices and arrays of every element kind ([]any, []int, []string, [2]string, [][]any, []map, []*S1 with nil members, []S1), lengths 0..3, nil, missing and non-sequence collections, " +
 		"one- and two-variable forms, loop variables that do and do not shadow outer variables / root struct fields, per-item v-if, <template v-for>, followed or not by v-else (with whitespace or a comment in between); " +
